@@ -12,7 +12,7 @@
     fuel), run on the encoded table over the default scopes, returns success, and the sorted namespace view of the
     resulting tree (Aml/View.v) IS the namespace [ns] the specification assigns to the program (Aml/Grammar.v). *)
 From Coq Require Import NArith List.
-From FF Require Import Aml.Grammar Aml.WfProgram Aml.ParserFragF0Final Aml.ParserFragF1Final Aml.ParserFragF3Final Aml.ParserFragF4Final Aml.ParserFragF5Final Aml.ParserFragF6Final Aml.ParserFragF7Final Aml.ParserFragT2Final.
+From FF Require Import Aml.Grammar Aml.WfProgram Aml.ParserFragF0Final Aml.ParserFragF1Final Aml.ParserFragF3Final Aml.ParserFragF4Final Aml.ParserFragF5Final Aml.ParserFragF6Final Aml.ParserFragF7Final Aml.ParserFragT2Final Aml.ParserFragT2F7Final.
 Import ListNotations.
 Local Open Scope N_scope.
 
@@ -131,3 +131,13 @@ Theorem C11_parse_encode_partial_F7 : forall tables,
   wf_program tables = true -> in_fragment_F7 tables = true -> parse_encode_statement tables.
 Proof. exact parse_encode_F7. Qed.
 Print Assumptions C11_parse_encode_partial_F7.
+
+(** Two-table fragment T2F7 ([in_fragment_T2F7], a boolean) = T2 with the items of F7 in place of those of F5: two tables,
+    the first a list of items of F7 without Scope directives, the second a table of F7 (items of F7 and top-level Scope
+    directives over the predefined scopes); each encoded table shorter than 2^28 bytes.  In addition to T2: Name
+    declarations whose value is a string or a package of integer constants and strings, in both tables (the strings of
+    each table are read back from that table's image). *)
+Theorem C11_parse_encode_partial_T2F7 : forall tables,
+  wf_program tables = true -> in_fragment_T2F7 tables = true -> parse_encode_statement tables.
+Proof. exact parse_encode_T2F7. Qed.
+Print Assumptions C11_parse_encode_partial_T2F7.
